@@ -103,4 +103,30 @@ theorem basisAt_eq_basis [DecidableEq F] {xs : List F} (h : xs.Nodup) (x : F) :
   · simp only [List.any_eq_true, List.mem_range, decide_eq_true_eq, not_exists, not_and]
     intro i hi; exact basisDen_ne_zero h hi
 
+theorem dot_powers (x : F) (c : List F) : dot (powers x c.length) c = Poly.eval c x := by
+  induction c with
+  | nil => simp [powers, Poly.eval]
+  | cons a c ih =>
+    have : Poly.eval (a :: c) x = Poly.eval c x * x + a := rfl
+    rw [this, List.length_cons, powers, dot_cons, dot_map_mul_right, ih]; ring
+
+theorem toPoly_injective {a b : List F} (hlen : a.length = b.length) (h : toPoly a = toPoly b) :
+    a = b := by
+  apply List.ext_getElem hlen
+  intro i h1 h2
+  have := congrArg (fun p => Polynomial.coeff p i) h
+  simpa [coeff_toPoly, List.getD_eq_getElem?_getD, h1, h2] using this
+
+/-- every solution of the model's Vandermonde system interpolates -/
+theorem vandermonde_solution_eval (xs ys c : List F) (hc : c.length = xs.length)
+    (hsol : mulVec (xs.map fun x => powers x xs.length) c = ys) :
+    ∀ i, i < xs.length → Poly.eval c (xs.getD i 0) = ys.getD i 0 := by
+  intro i hi
+  subst hsol
+  unfold mulVec
+  rw [List.map_map]
+  simp only [List.getD_eq_getElem?_getD, List.getElem?_map, List.getElem?_eq_getElem hi,
+    Option.map_some, Option.getD_some, Function.comp]
+  rw [← hc, dot_powers]
+
 end BronVerif.Lemmas.PolyLagrange
